@@ -842,8 +842,11 @@ func singleFails(c *core.Ctx, op string, a, b *opnd, lv, rv, repr, build, entry 
 	if repr == "-" {
 		repr = "plain"
 	}
-	return !accepted(expected(n, entry, el), execute(c, cp, entry, toRepr(el, repr)))
+	// not counted as evaluations: whether this runs depends on map order in the wmap form
+	return !accepted(expected(n, entry, el), execute(scratch, cp, entry, toRepr(el, repr)))
 }
+
+var scratch = core.NewCtx("quick", 0, 1, 0, 0)
 
 // matchVsFilter: Script.Match(v) must equal membership of v in the filter result.
 func matchVsFilter(c *core.Ctx, op, probe string, L, R *opnd, all []outcome) {
